@@ -31,11 +31,15 @@ def main():
     meta["ran"].append("pytest (with change): " + meta["suite_with_change"])
     env = dict(os.environ, PYTHONPATH=wt)
     rc1, out1 = sh(["/venv/bin/python", "SEED/demo.py"], cwd=wt, env=env, timeout=600)
-    sh("git stash -q -- mosaik", cwd=wt)
+    # (no `git stash`: the stash is shared between all worktrees of a repository)
+    tmp = os.path.join(wt, "SEED", ".seedcheck_current.diff")
+    sh(f"git diff -- mosaik > {tmp}", cwd=wt)
+    sh("git checkout -- mosaik", cwd=wt)
     try:
         rc0, out0 = sh(["/venv/bin/python", "SEED/demo.py"], cwd=wt, env=env, timeout=600)
     finally:
-        sh("git stash pop -q", cwd=wt)
+        sh(f"git apply {tmp}", cwd=wt)
+        os.remove(tmp)
     meta["demo_exit_with_change"], meta["demo_exit_without_change"] = rc1, rc0
     meta["demo_tail_with_change"] = out1.strip().splitlines()[-3:]
     meta["ran"].append(f"SEED/demo.py: exit {rc1} with the change, exit {rc0} without")
